@@ -627,7 +627,7 @@ class modict(odict):
         """
         for a in pa:
             if isinstance(a, modict): #positional arg is modict
-                for k, v in a.iterallitems():
+                for k, v in a.allitems():
                     self.append(k, v)
             elif hasattr(a, 'get'): #positional arg is dictionary
                 for k in a:
